@@ -183,8 +183,11 @@ func zzC04Preempt() {
 	kind := vChoice("kind", 3)
 	switch kind {
 	case 0:
-		i := vIntRange("id", -(1 << 53), 1<<53)
-		req = &jsonrpc.Request{Method: notificationCancelled, Params: vJSON(CancelledParams{RequestID: float64(i)})} // JSON numbers arrive as float64
+		// any int64 id: the peer names the request by the id it used, and ids are not confined to 2^53 (C19/C02 echo
+		// every int64 exactly); the JSON text in between is the engine's token (an integer decoded into `any` would
+		// arrive as the nearest float64)
+		i := vInt("id")
+		req = &jsonrpc.Request{Method: notificationCancelled, Params: vJSON(CancelledParams{RequestID: int64(i)})}
 		want = jsonrpc2.Int64ID(int64(i))
 	case 1:
 		s := vStringN("sid", 2)
